@@ -74,6 +74,11 @@ def run(loader, R, tier):
                     "same class")
     R.rule("R16.2", "no emission in unordered-container order")
     R.rule("R16.3", "str_ definitely assigned in every handler")
+    R.rule("R16.5", "a number that can print a leading '-' gets Atom "
+                    "precedence only where it is known to be non-negative")
+    R.rule("R16.4a", "printed decimal integers are read back in base 10")
+    R.rule("R16.4b", "a strtol result is used only where errno != ERANGE "
+                     "holds (no silent saturation of printed integers)")
     R.trusted += ["make_rcp<const K> in a factory (depth<=2) is how class K "
                   "is constructed"]
     R.assumptions += ["printing of numbers/symbols/operators round-trips "
@@ -146,6 +151,97 @@ def run(loader, R, tier):
                     "differently" % (short(f["qn"]), desc))
     R.floor("StrPrinter/JuliaStrPrinter methods scanned", fns, 60)
     R.floor("unordered-container walks in StrPrinter", sites, 1)
+
+    # ------------------------------------------------------------ R16.5
+    # A number that prints with a leading '-' must not have Atom precedence:
+    # as the base of a power it would lose its parentheses ((-2)**x printing
+    # as -2**x, which parses as -(2**x)).  In the Precedence handler of
+    # every Number class that can print a sign, each `precedence = Atom` must
+    # be dominated by a fact establishing that the value is not negative.
+    PREC = "SymEngine::Precedence"
+    if PREC not in V.table:
+        raise AnalysisBroken("Precedence visitor not found")
+    SIGNLESS = {"SymEngine::NaN": "prints as nan, never with a sign"}
+    NONNEG_CALLS = {("is_negative", False), ("is_positive", True),
+                    ("is_negative_infinity", False),
+                    ("is_positive_infinity", True), ("is_zero", True)}
+    nnum = 0
+    for X in prog.concrete_subclasses("SymEngine::Number",
+                                      include_self=False):
+        h = V.handlers(PREC).get(X)
+        if not h or X in SIGNLESS:
+            continue
+        if prog.derives(X, "SymEngine::SeriesCoeffInterface"):
+            R.exception(X, "R16.5: power series print as a sum with an "
+                           "order term; they are not literals of the "
+                           "parser's language")
+            continue
+        f = prog.functions.get(h)
+        if f is None:
+            continue
+        nnum += 1
+        key = "Precedence(%s)" % short(X)
+        atoms = []
+
+        def cb5(n, guards, line, f=f):
+            if n.get("k") in ("bin", "op") and n.get("op") == "=" \
+                    and n.get("a") and n["a"][0].get("k") == "mem" \
+                    and n["a"][0].get("m") == "precedence":
+                rhs = n["a"][1]
+                while rhs.get("k") == "cast":
+                    rhs = rhs["a"][0]
+                if rhs.get("k") == "ref" and rhs.get("n") == "Atom":
+                    ok = False
+                    from selib import sym as _s
+                    for g in _s.flatten_guards(guards):
+                        if g[0] == "case":
+                            continue
+                        c, pol = g
+                        if c.get("k") == "mcall" and (
+                                c.get("n"), bool(pol)) in NONNEG_CALLS:
+                            ok = True
+                        if c.get("k") in ("bin", "op") \
+                                and c.get("op") == "==" and pol:
+                            for side in c.get("a", ()):
+                                x = side
+                                while x.get("k") in ("cast", "ctor") \
+                                        and x.get("a"):
+                                    x = x["a"][0]
+                                if x.get("k") == "lit" and str(
+                                        x.get("v")).lstrip("+").replace(
+                                            ".", "").isdigit():
+                                    ok = True
+                        if c.get("k") in ("bin", "op") and (
+                                (c.get("op") == "<" and not pol)
+                                or (c.get("op") == ">=" and pol)) \
+                                and any(x.get("k") == "lit" and str(
+                                    x.get("v")) in ("0", "0.0")
+                                    for x in c.get("a", ())):
+                            ok = True
+                    atoms.append((n.get("l"), ok))
+        from selib import sym as _s2
+        _s2.visit_guarded(f["body"], cb5)
+        R.instance("R16.5", key, sample={
+            "handler": short(f["qn"]) + "(" + short(
+                f["params"][0]["t"]) + ")",
+            "atom_assignments": [{"line": l, "nonnegative_established": ok}
+                                 for l, ok in atoms]})
+        for l, ok in atoms:
+            if not ok:
+                R.violation(
+                    "R16.5", key, prog.loc(f, l),
+                    "Precedence of %s is set to Atom at line %s without "
+                    "establishing that the number is not negative: a "
+                    "negative %s prints with a leading '-' and, as the base "
+                    "of a power, loses its parentheses, so parse(str(e)) "
+                    "is a different expression" % (short(X), l, short(X)))
+    R.floor("number classes with a Precedence handler", nnum, 6)
+
+    # ------------------------------------------------------------ R16.4
+    # integers print in decimal; reading them back must be exact: base 10
+    # and no silent saturation (shared with C17)
+    from selib.numlit import literal_rules
+    literal_rules(prog, R, "R16.4a", "R16.4b")
 
     # ------------------------------------------------------------ R16.3
     n = 0
